@@ -134,10 +134,21 @@ void h_rans_step(void) {
   RAnsEncoder_rans_write(&e, &sym);
   ASSERT(e.ans_.buf_offset >= 0 && e.ans_.buf_offset <= 2, "rans.step.at_most_two_bytes");
   ASSERT(e.ans_.state >= (uint32_t)l_rans_base && e.ans_.state < RD_TOP, "rans.step.writer_state_in_range");
-  uint32_t quo = e.ans_.state / (uint32_t)rans_precision, rem = e.ans_.state % (uint32_t)rans_precision;
+  uint32_t quo = e.ans_.state / (uint32_t)rans_precision, rem = e.ans_.state % (uint32_t)rans_precision;   /* what rans_read extracts */
   ASSERT(rem >= cum && rem < cum + prob, "rans.step.slot_in_symbol_interval");
+  /* s2: the writer's state after its renormalisation loop = entry state with the emitted low bytes shifted out */
+  uint32_t s2 = state; for (int k = 0; k < e.ans_.buf_offset; ++k) s2 /= DRACO_ANS_IO_BASE;
+#ifndef RS_CUT
   uint32_t s = quo * prob + rem - cum; int off = e.ans_.buf_offset;   /* the update rans_read performs with the symbol found through the LUT */
   while (s < (uint32_t)l_rans_base && off > 0) { s = s * DRACO_ANS_IO_BASE + buf[--off]; }
   ASSERT(s == state && off == 0, "rans.step.state_restored");
+#else
+  /* The decoder update is quo*prob + (rem - cum): asserting that it equals s2 is the whole step.  (No division is recomputed in the harness:
+   * a second divider circuit on the same operands is something SAT back ends cannot relate to the first.) */
+  ASSERT(rem - cum < prob && (uint64_t)quo * prob + (rem - cum) == (uint64_t)s2, "rans.step.decoder_update_restores_renormalised_state");
+  uint32_t s = s2; int off = e.ans_.buf_offset;
+  while (s < (uint32_t)l_rans_base && off > 0) { s = s * DRACO_ANS_IO_BASE + buf[--off]; }
+  ASSERT(s == state && off == 0, "rans.step.emitted_bytes_restore_entry_state");
+#endif
   HARNESS_END();
 }
